@@ -152,6 +152,10 @@ def all_names(menu, max_len):
 SPACE3 = list(all_names(list(MENU), 3))
 
 
+# menu tokens whose component can be written as a plain text element of a list-form name
+TEXT_OF = {'a': 'a', 'B': 'B', 'E': '', 'D': '..'}
+
+
 def check_pairs(lo, hi, acc, viol):
     names = SPACE3
     enc_cache = {}
@@ -169,9 +173,15 @@ def check_pairs(lo, hi, acc, viol):
             lb, kb = enc(b)
             acc.evaluations += 1
             exp_prefix = len(a) <= len(b) and tuple(b[:len(a)]) == a
-            form = (i + j) % 3
+            form = (i + j) % 5
             try:
-                got = Name.is_prefix(la, lb) if form == 0 else (Name.is_prefix(ua, lb) if form == 1 else Name.is_prefix(Name.to_bytes(la), Name.to_str(lb)))
+                if form == 3:
+                    # the documented list form with text elements (mixed with wire elements)
+                    got = Name.is_prefix([TEXT_OF[x] if x in TEXT_OF and k % 2 == 0 else bytes(c) for k, (x, c) in enumerate(zip(a, la))], lb)
+                elif form == 4:
+                    got = Name.is_prefix(la, [TEXT_OF[x] if x in TEXT_OF else bytes(c) for x, c in zip(b, lb)])
+                else:
+                    got = Name.is_prefix(la, lb) if form == 0 else (Name.is_prefix(ua, lb) if form == 1 else Name.is_prefix(Name.to_bytes(la), Name.to_str(lb)))
                 if bool(got) != exp_prefix:
                     viol.append(('C09|pairs|is_prefix', f'is_prefix({a}, {b}) = {got}, list prefix = {exp_prefix} (form {form})'))
                 if (la < lb) != (ka < kb) or (la <= lb) != (ka <= kb) or (la == lb) != (ka == kb):
@@ -357,6 +367,17 @@ def unit(arg):
         acc.sample({'value_lengths': '0..300,65535,65536', 'contents': ['literal', 'all escaped', 'mixed'], 'types': [8, 32, 300],
                     'typed_number_types': 'lengths 0..19, 64, 253, 1786, 1787, 2000, 65535'})
     elif k == 'numbers':
+        if arg['lo'] == 0:
+            # typed numbers under component types on both sides of the one-byte type limit (not only the naming conventions)
+            for t in (1, 8, 32, 252, 253, 254, 255, 256, 65535):
+                for n in list(range(0, 258)) + [65535, 65536, 2 ** 32 - 1, 2 ** 32, 2 ** 64 - 1]:
+                    acc.evaluations += 1
+                    try:
+                        c2 = Component.from_number(n, t)
+                        if bytes(c2) != ts.tlv(t, ts.uint(n)) or Component.to_number(c2) != n or Component.get_type(c2) != t:
+                            viol.append(('C09|numbers|from_number-type', f'from_number({n}, {t}) = {bytes(c2).hex()}, expected {ts.tlv(t, ts.uint(n)).hex()}'))
+                    except Exception as e:  # noqa
+                        viol.append((f'C09|numbers|from_number-type-raises:{type(e).__name__}', f'from_number({n}, {t}): {e!r}'))
         for n in NUMBERS[arg['lo']:arg['hi']]:
             for t, pre in CONV.items():
                 v = ts.uint(n)
